@@ -2,7 +2,7 @@ CONSTANTS
   ProgOf <- FamProgOf
   MaxSteps = 8000
   EmitOn = TRUE
-  CheckLong = FALSE
+  CheckLong = TRUE
   ReservedNames = {"clock","len","push","remove","delkey","keys","values","abs","sqrt","pow","sin","cos","tan","min","max","round","input","input_ascii"}
 INIT Init
 NEXT Next
